@@ -119,7 +119,7 @@ Qed.
    branch of Model/Task.v it stands for.  A dropped / re-ordered / re-nested
    call, test, loop or handler, or a changed exit kind, breaks these. *)
 Theorem C01_searchdef_run_shape :
-  xshape tk_searchdef_run sk_searchdef_run = Some x_searchdef_run.
+  xshape_hoisted tk_searchdef_run sk_searchdef_run = Some x_searchdef_run.
 Proof. vm_compute. reflexivity. Qed.
 
 Theorem C01_flush_results_buffer_shape :
@@ -129,10 +129,6 @@ Proof. vm_compute. reflexivity. Qed.
 
 Theorem C01_simple_search_shape :
   xshape tk_simple_search sk_simple_search = Some x_simple_search.
-Proof. vm_compute. reflexivity. Qed.
-
-Theorem C01_store_result_shape :
-  xshape tk_store_result sk_store_result = Some x_store_result.
 Proof. vm_compute. reflexivity. Qed.
 
 Theorem C01_run_search_shape :
@@ -146,27 +142,33 @@ Theorem C01_put_result_shape :
   xshape tk_put_result sk_put_result = Some x_put_result.
 Proof. vm_compute. reflexivity. Qed.
 
-(* SearchDef.run: executing the extracted skeleton - hint_search /
-   pattern_match being the oracles, the three tests being `self.hint`,
-   `not ret`, `ret`, the loop ranging over the pattern list and LEAVING at
-   the first match - is sd_run, for every definition (any number of
-   patterns), every oracle and every line *)
-Theorem C01_searchdef_run_is_sd_run :
-  forall (line : Type) omatch ohint (d : sdef) (l : line),
-    on_shape (xshape tk_searchdef_run sk_searchdef_run)
-             (run_searchdef_tree line omatch ohint d l) =
-    Some (sd_run line omatch ohint d l).
-Proof. exact (searchdef_on_shape _ C01_searchdef_run_shape). Qed.
-
 (* the two tests of SearchDef.run as the source writes them: the hint
    pre-check is performed whenever there is a hint (whatever the number of
-   patterns) - guard 0 of the reading above - and the pattern loop is left
-   as soon as a pattern matched - guard 2 *)
+   patterns) - guard 0 of the reading below - and the pattern loop is left
+   as soon as a pattern matched - guard 1 *)
 Theorem C01_searchdef_run_tests_are_model :
   (forall has_hint npatterns,
      searchdef_run_hint_gate has_hint npatterns = has_hint) /\
   (forall matched, searchdef_run_leaves_loop matched = matched).
 Proof. split; reflexivity. Qed.
+
+(* SearchDef.run: executing the extracted skeleton - hint_search /
+   pattern_match being the oracles, the tests being the extracted hint gate
+   (and "hint not found") and the extracted loop-exit test, the loop ranging over the pattern list and LEAVING at
+   the first match - is sd_run, for every definition (any number of
+   patterns), every oracle and every line *)
+Theorem C01_searchdef_run_is_sd_run :
+  forall (line : Type) omatch ohint (d : sdef) (l : line),
+    on_shape (xshape_hoisted tk_searchdef_run sk_searchdef_run)
+             (run_searchdef_tree line omatch ohint d l
+                                 searchdef_run_hint_gate
+                                 searchdef_run_leaves_loop) =
+    Some (sd_run line omatch ohint d l).
+Proof.
+  exact (searchdef_on_shape _ _ _ C01_searchdef_run_shape
+           (proj1 C01_searchdef_run_tests_are_model)
+           (proj2 C01_searchdef_run_tests_are_model)).
+Qed.
 
 (* the local expressions of _flush_results_buffer that are not events:
    limit = MAX, buffer[:limit], range(limit), pop(0), limit -= 1 - as
@@ -295,6 +297,15 @@ Theorem C01_resultsmanager_properties :
   tk_resultsmanager_results_collection
   = [SEv (Rd "results_collection"); SExit].
 Proof. vm_compute. repeat split. Qed.
+
+(* which branch of store_result runs the group loop: the one taken when the
+   match has groups, however the source phrases the test (if/else, negated
+   and swapped, guard clause) *)
+Theorem C01_store_result_loop_condition :
+  forall n, store_loop_when n = negb (n =? 0).
+Proof.
+  intros n. unfold store_loop_when. destruct (n =? 0); reflexivity.
+Qed.
 
 (* ---- non-vacuity ---- *)
 (* patterns 1,2,3; hint 7; values are ids.  d1 = [p1 (no groups); p2 (2
